@@ -1,1 +1,2 @@
 import CbProps.C17
+import CbProps.C05
